@@ -14,7 +14,7 @@ import numpy as np
 import z3
 
 from . import core
-from .core import (SBV, SFP, SBool, SInt, SReal, Sym, UVal, Unsupported, and_, cur, ite, mkbool, mkint, not_, or_)
+from .core import (SBV, SFP, SBool, SInt, SReal, Sym, UVal, Unsupported, and_, cur, implies, ite, mkbool, mkint, not_, or_)
 
 _real_np = np
 
@@ -745,6 +745,15 @@ def array_ufunc(ufunc, method, inputs, kwargs):
                 o_plain[...] = res
                 return o
         tag = None
+        want = kwargs.get("dtype")
+        if want is not None:
+            d = _np_dtype(want)
+            if d == np.dtype(np.float32):
+                res = _round_to_float32(res)
+                tag = d
+            elif d.kind in "iub":
+                res = _plain(cast_array(_result(res) if isinstance(res, np.ndarray) else res, d)) if isinstance(res, np.ndarray) else cast_scalar(res, d)
+                tag = d
         return _result(res, tag)
     if method == "reduce":
         return _reduce(ufunc, fn, inputs[0], kwargs)
@@ -770,6 +779,42 @@ def array_ufunc(ufunc, method, inputs, kwargs):
         b = np.asarray(_plain(b), dtype=object)
         return _result(_elementwise(fn, [a.reshape(a.shape + (1,) * b.ndim), b]))
     raise Unsupported(f"ufunc method {method}")
+
+
+def _round_to_float32(res):
+    """
+    A computation asked for in single precision (ufunc dtype=np.float32) on values that are NOT known to be float32 already:
+    each symbolic real x becomes a fresh real r with |r - x| <= 2^-24 |x| (round to nearest, normal range), rounding is
+    monotone and equal inputs round equally.  An over-approximation of IEEE rounding: a counterexample that depends on it
+    has to reproduce on the real code, otherwise it is reported as inconclusive.
+    """
+    ctx = core.cur()
+    flat = np.asarray(res, dtype=object).ravel().tolist() if isinstance(res, np.ndarray) else [res]
+    xs, rs = [], []
+    out = []
+    for e in flat:
+        if isinstance(e, SReal) and e.nan is False:
+            r = SReal(ctx.fresh_real("f32"))
+            eps = Fraction(1, 2 ** 24)
+            ax = ite(e >= 0, e, -e)
+            ctx.assume(and_(r - e <= ax * eps, e - r <= ax * eps))
+            for x0, r0 in zip(xs, rs):
+                ctx.assume(and_(implies(x0 <= e, r0 <= r), implies(e <= x0, r <= r0)))
+            xs.append(e)
+            rs.append(r)
+            out.append(r)
+        elif isinstance(e, Sym) and not isinstance(e, (SInt, SBool)):
+            raise Unsupported("single-precision rounding of this kind of symbolic value")
+        elif isinstance(e, (builtins.float, np.floating)):
+            out.append(builtins.float(np.float32(e)))
+        else:
+            out.append(e)
+    if isinstance(res, np.ndarray):
+        o = np.empty(len(out), dtype=object)
+        for i, v in enumerate(out):
+            o[i] = v
+        return o.reshape(np.shape(res))
+    return out[0]
 
 
 def scalar_ufunc(ufunc, method, inputs, kwargs):
